@@ -489,10 +489,32 @@ def oracle(line: str, out: str, extra: dict):
     return None
 
 
+def _expected_out(line: str):
+    """The output the property demands for the ops whose output it fixes from the case line alone (else None)."""
+    f = line.split(SEP)
+    if f[1] == "obj":
+        bits = _obj_expected_bits(f[3], f[4], _opt(f[5]), _opt(f[6]))
+        if bits is None:
+            return None
+        eb = hx(_exp_bytes(bits))
+        return "ok %s %s %s %s" % (wire(bits), eb, eb if len(bits) % 8 == 0 else "!", eb)
+    if f[1] == "rt":
+        return "ok " + f[3]
+    if f[1] == "arr":
+        eb = hx(_exp_bytes(unwire(f[4])))
+        return "ok %s %s" % (eb, eb)
+    return None
+
+
 def compare(o: str, m: str, line: str) -> bool:
+    """IMPL vs MODEL.  Inside the region of a known deviation the model transcribes the deviant behaviour (it is
+    not the specification there), so an implementation that gives the property's own answer instead is accepted:
+    repairing the defect must not raise an alarm."""
     if line.split(SEP)[1] == "big":
         return m == "skip"
-    return o == m
+    if o == m:
+        return True
+    return any(pred(line) for pred in REGIONS.values()) and o == _expected_out(line)
 
 
 def nontrivial(line: str) -> bool:
@@ -514,7 +536,9 @@ def _tofile_lsb0_multichunk(line: str) -> bool:
         return False
     if bits is None:
         return False
-    eff = int(chunk) if (chunk != "-" and HOOK) else CHUNK
+    # the chunk the MODEL uses for this line; in a tree without the hook the implementation really runs with the
+    # shipped constant, is then right on these small cases, and `compare` accepts that
+    eff = int(chunk) if chunk != "-" else CHUNK
     return len(bits) > eff
 
 
